@@ -25,8 +25,8 @@ UNIT = Unit(
            pre_rewrites=[(re.compile(r"\|\((\w+), (\w+)\)\| \{"), r"|__nt| { let \1 = &__nt.0; let \2 = &__nt.1;", "*"),
                          ("tast::Ty::from_hir(", "ty_from_hir(", "*"), ("(*name, ty)", "(local_copy(name), ty)", "*"),
                          (re.compile(r"for \((\w+), (\w+)\) in param_types\.iter\(\) \{"), r"for __pt in param_types.iter() { let \1 = &__pt.0; let \2 = &__pt.1;", 1),
-                         ("local_env.insert_var(*id, ty.clone());", "local_env.insert_param(local_copy(id), ty.vclone());", 1),
-                         ("typer.results.record_local_ty(*id, ty.clone());", "typer.record_local_ty(local_copy(id), ty.vclone());", 1),
+                         ("local_env.insert_var(*id, ty.clone());", "local_env.insert_param(local_copy(id), ty.vclone());", "*"),
+                         ("typer.results.record_local_ty(*id, ty.clone());", "typer.record_local_ty(local_copy(id), ty.vclone());", "*"),
                          (re.compile(r"typer\.check_expr\(genv, &mut local_env, diagnostics, f\.body, &ret_ty\)"), "typer.check_body(genv, &mut local_env, diagnostics, f.body, &ret_ty, Ghost(*f))", 1)],
            rewrites=[(re.compile(r"let mut (__mo\d+) = Vec::new\(\);"), r"let mut \1: Vec<(LocalId, Ty)> = Vec::new();", "*")],
            obligation="the body is checked against the declared result type with every parameter bound to its declared type; then the constraints are solved",
